@@ -48,7 +48,7 @@ m = {
  "setup_cmd": "./setup.sh",
  "hooks": {
   "guard": "verif",
-  "enable": "no hook is committed to /repo: seams are woven at check time from the working tree into a `go build -overlay -tags verif` (sync->simsync import swap, go statements->simrt.Go, yields around channel operations, time.Now/net.Dial/rand.Int31 selector rewrites, overlay-added zz_verif.go exports); see DESIGN.md 3.1 and weave/rules.json",
+  "enable": "no hook is committed to /repo: seams are woven at check time from the working tree into a `go build -overlay -tags verif` (sync->simsync import swap, go statements->simrt.Go, yields around channel operations, statement-level preemption points, time.Now/net.Dial/net.DialTimeout/net.Dialer/net.Listen/rand.Int31 selector rewrites, conditionally overlay-added accessors for two unexported bot functions); see DESIGN.md 3.1, D.2, D.12 and weave/rules.json",
   "baseline_off_cmd": "cd /repo && go test -mod=mod -vet=off -count=1 -timeout 25m ./...",
   "source_commits": [],
   "add_only": True,
